@@ -128,3 +128,17 @@ package webrtc
 //@ ensures typ == RTPCodecTypeVideo ==> sameptr(result, ite(m.negotiatedVideo, m.negotiatedVideoCodecs, m.videoCodecs)) && len(result) == len(ite(m.negotiatedVideo, m.negotiatedVideoCodecs, m.videoCodecs))
 //@ ensures typ == RTPCodecTypeAudio ==> sameptr(result, ite(m.negotiatedAudio, m.negotiatedAudioCodecs, m.audioCodecs)) && len(result) == len(ite(m.negotiatedAudio, m.negotiatedAudioCodecs, m.audioCodecs))
 //@ modifies nothing
+
+// Matching one remote codec. An RTX-style codec (its fmtp has an apt parameter) is accepted
+// only through a remote codec that was matched before: the apt is a payload type (0..255 —
+// anything else is a parse error), the associated codec is taken from the exact matches
+// first and from the partial matches otherwise, and a codec whose associated codec matched
+// only partially is itself at most a partial match.
+//@ func (*MediaEngine).matchRemoteCodec
+//@ props C15
+//@ nosafety
+//@ requires m != nil
+//@ loop 0 break uint64(payloadType) <= 255 && codec.PayloadType == PayloadType(payloadType)
+//@ loop 1 break uint64(payloadType) <= 255 && codec.PayloadType == PayloadType(payloadType) && aptMatch == codecMatchNone
+//@ atreturn assert aptMatch == codecMatchPartial ==> ret1 != codecMatchExact
+//@ atreturn assert aptMatch == codecMatchNone ==> ret1 == codecMatchNone
